@@ -2,3 +2,5 @@ import Liquid.Basic
 import Liquid.Regex
 import Liquid.Scan
 import Liquid.Driver
+import Liquid.Value
+import Liquid.Utf8
